@@ -1,6 +1,6 @@
 SPECIFICATION RSpec
 CONSTANTS
-  Ids = {"a", "b"}
+  Ids = {"a", "b", ""}
   Namespaces = {"n1"}
   Types = {"test/int", "test/str"}
   Owners = {"", "A", "B"}
